@@ -438,6 +438,19 @@ pub fn run(o: &mut Out, tier: &str, seed: u64) {
         o.direct(serde_json::from_value::<Address>(serde_json::Value::String(t.clone())).ok() == Some(a), "from_value(to_value(address))==address", format!("c19_addr {}", h(&t)), "err or other".into(), t.clone());
         o.direct(serde_json::from_reader::<_, Address>(js.as_bytes()).ok() == Some(a), "from_reader(to_json(address))==address", format!("c19_addr {}", h(&t)), "err or other".into(), t.clone());
         let r = o.op(format!("c19_addr {}", h(&t)), false); if nt(&r) { o.nontrivial.insert(o.ops.last().unwrap().clone()); }
+        // "an address is represented by its canonical text and invalid text is refused": the OTHER spellings of the same address that the
+        // library can produce or parse elsewhere (hex of the blob, 0x-prefixed, upper case, hex of the consensus form, the text with
+        // surrounding blanks) are not the canonical text and must be refused by the deserialiser, through every entry point
+        for (what, alt) in [("hex", a.as_hex()), ("0xhex", format!("0x{}", a.as_hex())), ("HEX", a.as_hex().to_uppercase()),
+                            ("consensus-hex", hex(&monero::consensus::encode::serialize(&a))), ("padded", format!(" {} ", t)), ("lower", t.to_lowercase())] {
+            if alt == t { continue; }
+            let js = serde_json::to_string(&alt).unwrap();
+            let r1 = serde_json::from_str::<Address>(&js).is_err();
+            let r2 = serde_json::from_value::<Address>(serde_json::Value::String(alt.clone())).is_err();
+            let r3 = serde_json::from_reader::<_, Address>(js.as_bytes()).is_err();
+            o.direct(r1 && r2 && r3, "C19: a non-canonical spelling of an address is refused by the deserialiser (from_str / from_value / from_reader)", format!("c19_addr {}", h(&alt)), format!("{} accepted: from_str {} from_value {} from_reader {}", what, !r1, !r2, !r3), "refused".into());
+            o.op(format!("c19_addr {}", h(&alt)), false); o.stat(&format!("addr.noncanonical.{}", what));
+        }
         o.stat(&format!("addr.{:?}.{}", n, k));
         texts.push(t);
     } } }
